@@ -32,12 +32,12 @@ const (
 
 func init() {
 	register("C08", propMeta{
-		Explanation:  "Decides the write ordering that crash recovery depends on: (R1) every commit step with a persistent effect is logged before it acts (commitUpdatedNodes, which logs the ids it allocated, logs immediately after and from the action's own result), on first and on every repeated execution; (R2) in phase1Commit the priority log of handle pre-images is written before activateInactiveNodes/touchNodes mutate those handles in place, its payload is built from exactly the slices those two calls receive, and it may be skipped only when both slices are empty; (R3) priorityRollback and doPriorityRollbacks write the logged pre-images back and remove the priority log only after the registry write succeeded, and Phase2Commit's failure path restores pre-images (or removes the priority log) before the ordinary rollback; (R4) the file transaction log flushes every record before reporting success and the priority log is written through the checksummed WriteFile path.",
+		Explanation:  "Decides the write ordering that crash recovery depends on: (R1) every commit step with a persistent effect is logged before it acts (commitUpdatedNodes, which logs the ids it allocated, logs immediately after and from the action's own result), on first and on every repeated execution; (R2) in phase1Commit the priority log of handle pre-images is written before activateInactiveNodes/touchNodes mutate those handles in place, its payload is built from exactly the slices those two calls receive, and it may be skipped only when both slices are empty; (R3) priorityRollback and doPriorityRollbacks write the logged pre-images back and remove the priority log only after the registry write succeeded, and Phase2Commit's failure path restores pre-images (or removes the priority log) before the ordinary rollback; (R4) the file transaction log flushes every record before reporting success and the priority log is written through the checksummed WriteFile path. (R5) restoreFromCow reports success only after it copied the verified backup into the caller's buffer, for read-only callers too (shared with C23.R1).",
 		DoesNotCover: "Crash points are not enumerated and recovery is not executed; durability below the OS page cache (no fsync anywhere in the code) is assumed, not checked; torn registry blocks are C22.",
 		Assumptions:  []string{"process death, not power loss: a completed write(2) survives"},
 	}, runC08)
 	register("C07", propMeta{
-		Explanation:  "Decides undo coverage and lock release on every error exit: (R1) the table step -> {log site in phase1Commit/NewBtree, guarded undo block in the live rollback, guarded undo block in the dead-transaction log replay} is extracted from the code and must be complete for every step with a persistent effect, each undo calling the matching undo function; (R2) the live-rollback guard of a step whose action performs two persistent effects must also cover the state in which only the first effect happened; (R3) rollback releases node-key locks on every path and item locks once they may have been taken; a failed node-key Lock/DualLock attempt in phase1Commit is followed by Unlock before sleeping or retrying; (R4) log removal is on every terminal path; (R6) the undos that clear whatever reservation / deletion mark / root the registry holds run only under a strict `>` guard whose truth implies the step succeeded for this transaction. (R7) a first root's blob is written before its handle is registered; (R8) what an undo function looks up in the registry is recorded there before the data it leads to is written.",
+		Explanation:  "Decides undo coverage and lock release on every error exit: (R1) the table step -> {log site in phase1Commit/NewBtree, guarded undo block in the live rollback, guarded undo block in the dead-transaction log replay} is extracted from the code and must be complete for every step with a persistent effect, each undo calling the matching undo function; (R2) the live-rollback guard of a step whose action performs two persistent effects must also cover the state in which only the first effect happened; (R3) rollback releases node-key locks on every path and item locks once they may have been taken; a failed node-key Lock/DualLock attempt in phase1Commit is followed by Unlock before sleeping or retrying; (R4) log removal is on every terminal path; (R6) the undos that clear whatever reservation / deletion mark / root the registry holds run only under a strict `>` guard whose truth implies the step succeeded for this transaction. (R7) a first root's blob is written before its handle is registered; (R8) what an undo function looks up in the registry is recorded there before the data it leads to is written. (R9) transactionLog.log assigns the step marker on every path, also when the backend rejects the record.",
 		DoesNotCover: "That the undo functions restore byte-identical state is not decided (C10 decides which ids they may delete); fault schedules are not executed.",
 	}, runC07)
 }
@@ -525,6 +525,8 @@ func runC07(c *Ctx) {
 	r7 := c.Rule("R7", "a first root's handle is registered only after its blob was written: the root id is published in StoreInfo.RootNodeID, so a registered handle without a blob is reachable data that does not load, and (the partial step not being undone, R2) it blocks every later creator of that root for good, whereas an orphan blob is overwritten by the retry", 1)
 	rootBlobBeforeHandleRule(c, r7)
 	failedFlipKeepsKeysRule(c, r5)
+	r9 := c.Rule("R9", "the step marker is the step whose log write was attempted: transactionLog.log assigns committedState = f on every path, also when the backend rejects the record - rollback's strict `>` guards read a failed log of step S as `S-1 completed, S not started`", 2)
+	stepMarkerRule(c, r9)
 	r8 := c.Rule("R8", "what an undo function looks up in the registry is recorded there before the data it leads to is written (derived from the undo functions; shared with C11.R5)", 3)
 	undoDiscoveryRule(c, r8)
 	r6 := c.Rule("R6", "undo functions that cannot tell this transaction's state from a competitor's run only in a state that implies the step succeeded for this transaction (shared with C37.R4)", 6)
@@ -930,4 +932,26 @@ func holdsOp(a int64, op token.Token, b int64) bool {
 		return a != b
 	}
 	return true
+}
+
+// stepMarkerRule (C07.R9).
+func stepMarkerRule(c *Ctx, r9 string) {
+	w := c.W
+	f := w.Fn(kLoggerLog)
+	g := w.G(f)
+	c.Analysed(f)
+	state := w.Field("common", "transactionLog", "committedState")
+	stepP := f.Obj.Type().(*types.Signature).Params().At(1)
+	info := f.Pkg.TypesInfo
+	set := func(n *GNode) bool {
+		as, ok := n.Ast.(*ast.AssignStmt)
+		if !ok || len(as.Lhs) != 1 || len(as.Rhs) != 1 {
+			return false
+		}
+		return fieldOfSelector(info, as.Lhs[0]) == state && mentionsObj(info, as.Rhs[0], stepP)
+	}
+	c.Check(len(g.Find(set)) >= 1, r9, "transactionLog.log: assigns committedState from the step argument", f.Decl.Pos(), fmt.Sprintf("%d assignment(s)", len(g.Find(set))), "committedState is not assigned from the step argument", nil)
+	offs := g.MustPrecede(set, func(n *GNode) bool { return n.Ret != nil })
+	c.Offences(g, offs, r9, "transactionLog.log: every return follows the assignment of committedState", f.Decl.Pos(), "assigned before the backend write, whatever its outcome",
+		"log can return (with the backend's error) without having advanced committedState: the failed commit's rollback then sees the previous step as the current one and, its guards being strict, skips the undo of that fully executed step - staged inactive ids, deleted marks or the store count of a failed commit stay behind and block or mislead later transactions")
 }
